@@ -7,13 +7,15 @@
    capacity-guarded aligned fast paths (bool `off < capacity`, aligned <= 8 bit loads `off + w <= capacity`), zero extension,
    padding, prefix and tag checks, final size = min(cursor, capacity) / 8.
 
-   NOT PROVED (kept visible as the Prop-valued definitions `walk_des_refines_statement`, `walk_ser_refines_statement`): nested
-   composites (needs the weaker simulation relation "equal values, cursors equal or both past the capacity" because the C code
-   clamps the size a nested sealed routine reports, and a capacity parameter different from the buffer length for delimited
-   ones), and the whole serialization direction (needs the invariant firstn cursor buffer = bits emitted so far together with
-   the bound cursor + remaining maximum <= capacity that makes every primitive store succeed).  These are tied by
-   correspondence only: the extracted walker is compared with the extracted specification and, transitively, with the compiled
-   generated code on every request of every run (requests `wser` / `wdes`). *)
+   EXTENDED in the second round (separate files, this file is unchanged apart from this comment):
+     - Codec/RefineDesBase.v, RefineDes.v: `walk_des_refines_statement` below HOLDS (`walk_des_refines_statement_holds`,
+       `walk_des_refines_all`): every type incl. nested sealed/delimited composites, arrays of composites, unions with
+       composite members; simulation relation "equal values, cursors equal or both at/past the capacity";
+     - Codec/RefineSerBits.v, RefineSerBase.v, RefineSer.v: the serialization direction for every well-formed composite type and
+       every value that fits the storage types of the generated fields (`walk_ser_refines_composite`); the statement
+       `walk_ser_refines_statement` below, whose storage proviso is the placeholder True and whose type is arbitrary, is
+       REFUTED there (`walk_ser_refines_statement_refuted`) - it is kept here only as the record of what was open;
+     - Codec/GenC01Thm.v: the translator tie (Generated/Gen_C01.v). *)
 From Verif Require Import Wire WireThm Walker.
 From Coq Require Import Lia ZifyBool ZifyNat ZifyN.
 Local Open Scope nat_scope.
